@@ -1155,8 +1155,15 @@ func RunSumScenario(sc SumScenario) *SumRun {
 		select {
 		case <-ops.parkedCh:
 			time.Sleep(2 * time.Millisecond) // let the other reads of the parked batch finish
-			<-inGoroutine(i + 1)
-			close(ops.release)
+			d2 := inGoroutine(i + 1)
+			select {
+			case <-d2:
+				close(ops.release)
+			case <-time.After(60 * time.Millisecond):
+				// lookup i+1 waits for the very tile whose read is parked (parCache): let go
+				close(ops.release)
+				<-d2
+			}
 			<-d1
 		case <-d1:
 			// the named operation never happened: run the next step after it
